@@ -9,6 +9,7 @@
 import AITB.Props.C15Clean
 import AITB.Model.FLPBuf
 import AITB.Gen.C15Callbacks
+import AITB.Gen.C15Setup
 
 namespace AITB.FLP
 open AITB.Factored AITB.VE
@@ -653,5 +654,214 @@ theorem flp_crossSumGroup_run (neg : Nat) (pos : List Nat) (hpos : ∀ c ∈ pos
 /-- satisfiable and non-trivial (test on literals): rules in columns 3 and 5, new factor in columns 7/8, junk in the buffer -/
 example : (crossSumGroup AITB.Gen.flpCallbacks 7 [3, 5] ⟨[9, 9, 9, 9, 9, 9, 9, 9, 9], []⟩).pushed
     = [[0, 0, 0, 1, 0, 1, 0, -1, 0], [0, 0, 0, 0, 1, 0, 1, 0, -1]] := by decide +kernel
+
+/-! ## the two setup loops of FactoredLP::operator(): a persistent buffer patched by hand -/
+
+theorem getD_set_lt (b : List Rat) (i j : Nat) (a : Rat) (h : i < b.length) :
+    (b.set i a).getD j 0 = if i = j then a else b.getD j 0 := by
+  rw [getD_set]; simp [h]
+
+/-- dense form of a row with two / three written columns (last write wins) -/
+theorem dense_two (a b : Nat) (x y : Rat) (rel : Rel) (rhs : Rat) (j : Nat) :
+    (⟨[(a, x), (b, y)], rel, rhs⟩ : CRow).dense j = if b = j then y else if a = j then x else 0 := by
+  simp [CRow.dense, denseSet]
+
+theorem dense_three (a b c : Nat) (x y z : Rat) (rel : Rel) (rhs : Rat) (j : Nat) :
+    (⟨[(a, x), (b, y), (c, z)], rel, rhs⟩ : CRow).dense j = if c = j then z else if b = j then y else if a = j then x else 0 := by
+  simp [CRow.dense, denseSet]
+
+theorem dense_one (a : Nat) (x : Rat) (rel : Rel) (rhs : Rat) (j : Nat) :
+    (⟨[(a, x)], rel, rhs⟩ : CRow).dense j = if a = j then x else 0 := by
+  simp [CRow.dense, denseSet]
+
+/-- the buffer is clear except (possibly) at the weight column and — when the constant basis is requested — the constant column -/
+def ClearExcept (e : SEnv) (buf : List Rat) : Prop :=
+  ∀ j, j < buf.length → j ≠ e.weight → ¬ (e.addConst = true ∧ j = e.constId) → buf.getD j 0 = 0
+
+/-- **second setup loop of FactoredLP (target `b`), one entry**: the transcribed body pushes the dense forms of `flpBRows col q` with
+    their right-hand sides and leaves the buffer as clear as it found it -/
+theorem flpSetupB_body (e : SEnv) (st : SSt) (hr : e.rule + 1 < st.buf.length)
+    (hz : ∀ j, j < st.buf.length → st.buf.getD j 0 = 0) :
+    (execSBody e AITB.Gen.flpSetupBBody st).pushed
+        = st.pushed ++ (flpBRows e.rule e.q).map (fun r => (denseRow st.buf.length r, r.rhs)) ∧
+    (execSBody e AITB.Gen.flpSetupBBody st).buf.length = st.buf.length ∧
+    ∀ j, j < st.buf.length → (execSBody e AITB.Gen.flpSetupBBody st).buf.getD j 0 = 0 := by
+  simp only [AITB.Gen.flpSetupBBody, execSBody, execS, sIx, sVal, flpBRows, List.map_cons, List.map_nil]
+  refine ⟨?_, by simp, ?_⟩
+  · simp only [List.append_assoc, List.cons_append, List.nil_append]
+    congr 1
+    have r1 : st.buf.set e.rule 1 = denseRow st.buf.length ⟨[(e.rule, 1)], .eq, -e.q⟩ := by
+      apply ext_getD _ _ (by simp [length_denseRow])
+      intro j hj
+      rw [List.length_set] at hj
+      rw [getD_set_lt _ _ _ _ (by omega), getD_denseRow _ _ _ hj, dense_one]
+      split
+      · rfl
+      · exact hz j hj
+    have r2 : ((st.buf.set e.rule 1).set e.rule 0).set (e.rule + 1) 1 = denseRow st.buf.length ⟨[(e.rule + 1, 1)], .eq, e.q⟩ := by
+      apply ext_getD _ _ (by simp [length_denseRow])
+      intro j hj
+      simp only [List.length_set] at hj
+      rw [getD_set_lt _ _ _ _ (by simp; omega), getD_set_lt _ _ _ _ (by simp; omega), getD_set_lt _ _ _ _ (by omega),
+        getD_denseRow _ _ _ hj, dense_one]
+      by_cases h1 : e.rule + 1 = j
+      · simp [h1]
+      · by_cases h2 : e.rule = j
+        · simp [h1, h2]
+        · rw [if_neg h1, if_neg h2, if_neg h2, if_neg h1]; exact hz j hj
+    rw [r2, r1]
+  · intro j hj
+    rw [getD_set_lt _ _ _ _ (by simp; omega), getD_set_lt _ _ _ _ (by simp; omega), getD_set_lt _ _ _ _ (by simp; omega),
+      getD_set_lt _ _ _ _ (by omega)]
+    by_cases h1 : e.rule + 1 = j
+    · simp [h1]
+    · by_cases h2 : e.rule = j
+      · simp [h1, h2]
+      · rw [if_neg h1, if_neg h1, if_neg h2, if_neg h2]; exact hz j hj
+
+/-- **first setup loop of FactoredLP (bases `C`), one entry**: the transcribed body — two pushes on a buffer that is NOT cleared
+    in between, only patched by hand (`row[currentRule] = 0.0` …) — pushes the dense forms of `flpCRows` and re-establishes
+    `ClearExcept`, whatever the weight column (and, with the constant basis, the constant column) held before -/
+theorem flpSetupC_body (e : SEnv) (st : SSt) (hr : e.rule + 1 < st.buf.length) (hw : e.weight < st.buf.length)
+    (hc : e.addConst = true → e.constId < st.buf.length)
+    (hz : ClearExcept e st.buf) :
+    (execSBody e AITB.Gen.flpSetupCBody st).pushed
+        = st.pushed ++ (flpCRows e.addConst e.constId e.cc e.weight e.rule e.q).map (fun r => (denseRow st.buf.length r, r.rhs)) ∧
+    (execSBody e AITB.Gen.flpSetupCBody st).buf.length = st.buf.length ∧
+    ClearExcept e (execSBody e AITB.Gen.flpSetupCBody st).buf := by
+  cases hac : e.addConst
+  · -- no constant basis
+    have hz' : ∀ j, j < st.buf.length → j ≠ e.weight → st.buf.getD j 0 = 0 := fun j hj hjw => hz j hj hjw (by simp [hac])
+    simp only [AITB.Gen.flpSetupCBody, execSBody, execS, sIx, sVal, hac, flpCRows, List.map_cons, List.map_nil,
+      Bool.false_eq_true, if_false, List.append_nil]
+    refine ⟨?_, by simp, ?_⟩
+    · simp only [List.append_assoc, List.cons_append, List.nil_append]
+      congr 1
+      have r1 : (st.buf.set e.rule (-1)).set e.weight e.q = denseRow st.buf.length ⟨[(e.rule, -1), (e.weight, e.q)], .eq, 0⟩ := by
+        apply ext_getD _ _ (by simp [length_denseRow])
+        intro j hj
+        simp only [List.length_set] at hj
+        rw [getD_set_lt _ _ _ _ (by simp; omega), getD_set_lt _ _ _ _ (by omega), getD_denseRow _ _ _ hj, dense_two]
+        by_cases h1 : e.weight = j
+        · simp [h1]
+        · by_cases h2 : e.rule = j
+          · simp [h1, h2]
+          · rw [if_neg h1, if_neg h2, if_neg h1, if_neg h2]; exact hz' j hj (fun x => h1 x.symm)
+      have r2 : ((((st.buf.set e.rule (-1)).set e.weight e.q).set e.rule 0).set (e.rule + 1) (-1)).set e.weight (-e.q)
+          = denseRow st.buf.length ⟨[(e.rule + 1, -1), (e.weight, -e.q)], .eq, 0⟩ := by
+        apply ext_getD _ _ (by simp [length_denseRow])
+        intro j hj
+        simp only [List.length_set] at hj
+        rw [getD_set_lt _ _ _ _ (by simp; omega), getD_set_lt _ _ _ _ (by simp; omega), getD_set_lt _ _ _ _ (by simp; omega),
+          getD_set_lt _ _ _ _ (by simp; omega), getD_set_lt _ _ _ _ (by omega), getD_denseRow _ _ _ hj, dense_two]
+        by_cases h1 : e.weight = j
+        · simp [h1]
+        · by_cases h3 : e.rule + 1 = j
+          · simp [h1, h3]
+          · by_cases h2 : e.rule = j
+            · simp [h1, h2, h3]
+            · rw [if_neg h1, if_neg h3, if_neg h2, if_neg h1, if_neg h2, if_neg h1, if_neg h3]; exact hz' j hj (fun x => h1 x.symm)
+      rw [r2, r1]
+    · intro j hj hjw _
+      simp only [List.length_set] at hj
+      rw [getD_set_lt _ _ _ _ (by simp; omega), getD_set_lt _ _ _ _ (by simp; omega), getD_set_lt _ _ _ _ (by simp; omega),
+        getD_set_lt _ _ _ _ (by simp; omega), getD_set_lt _ _ _ _ (by simp; omega), getD_set_lt _ _ _ _ (by omega)]
+      have h1 : ¬ e.weight = j := fun x => hjw x.symm
+      by_cases h3 : e.rule + 1 = j
+      · simp [h3]
+      · by_cases h2 : e.rule = j
+        · simp [h1, h2, h3]
+        · rw [if_neg h3, if_neg h1, if_neg h3, if_neg h2, if_neg h1, if_neg h2]; exact hz' j hj hjw
+  · -- constant basis requested: its column is overwritten before each push
+    have hcl := hc hac
+    have hz' : ∀ j, j < st.buf.length → j ≠ e.weight → j ≠ e.constId → st.buf.getD j 0 = 0 :=
+      fun j hj hjw hjc => hz j hj hjw (fun x => hjc x.2)
+    simp only [AITB.Gen.flpSetupCBody, execSBody, execS, sIx, sVal, hac, flpCRows, List.map_cons, List.map_nil,
+      if_true, List.cons_append, List.nil_append]
+    refine ⟨?_, by simp, ?_⟩
+    · simp only [List.append_assoc, List.cons_append, List.nil_append]
+      congr 1
+      have r1 : ((st.buf.set e.rule (-1)).set e.weight e.q).set e.constId e.cc
+          = denseRow st.buf.length ⟨[(e.rule, -1), (e.weight, e.q), (e.constId, e.cc)], .eq, 0⟩ := by
+        apply ext_getD _ _ (by simp [length_denseRow])
+        intro j hj
+        simp only [List.length_set] at hj
+        rw [getD_set_lt _ _ _ _ (by simp; omega), getD_set_lt _ _ _ _ (by simp; omega), getD_set_lt _ _ _ _ (by omega),
+          getD_denseRow _ _ _ hj, dense_three]
+        by_cases h0 : e.constId = j
+        · simp [h0]
+        · by_cases h1 : e.weight = j
+          · simp [h0, h1]
+          · by_cases h2 : e.rule = j
+            · simp [h0, h1, h2]
+            · rw [if_neg h0, if_neg h1, if_neg h2, if_neg h0, if_neg h1, if_neg h2]
+              exact hz' j hj (fun x => h1 x.symm) (fun x => h0 x.symm)
+      have r2 : ((((((st.buf.set e.rule (-1)).set e.weight e.q).set e.constId e.cc).set e.rule 0).set (e.rule + 1) (-1)).set e.weight (-e.q)).set e.constId (-e.cc)
+          = denseRow st.buf.length ⟨[(e.rule + 1, -1), (e.weight, -e.q), (e.constId, -e.cc)], .eq, 0⟩ := by
+        apply ext_getD _ _ (by simp [length_denseRow])
+        intro j hj
+        simp only [List.length_set] at hj
+        rw [getD_set_lt _ _ _ _ (by simp; omega), getD_set_lt _ _ _ _ (by simp; omega), getD_set_lt _ _ _ _ (by simp; omega),
+          getD_set_lt _ _ _ _ (by simp; omega), getD_set_lt _ _ _ _ (by simp; omega), getD_set_lt _ _ _ _ (by simp; omega),
+          getD_set_lt _ _ _ _ (by omega), getD_denseRow _ _ _ hj, dense_three]
+        by_cases h0 : e.constId = j
+        · simp [h0]
+        · by_cases h1 : e.weight = j
+          · simp [h0, h1]
+          · by_cases h3 : e.rule + 1 = j
+            · simp [h0, h1, h3]
+            · by_cases h2 : e.rule = j
+              · simp [h0, h1, h2, h3]
+              · rw [if_neg h0, if_neg h1, if_neg h3, if_neg h2, if_neg h0, if_neg h1, if_neg h2, if_neg h0, if_neg h1, if_neg h3]
+                exact hz' j hj (fun x => h1 x.symm) (fun x => h0 x.symm)
+      rw [r2, r1]
+    · intro j hj hjw hjc
+      simp only [List.length_set] at hj
+      have h0 : ¬ e.constId = j := fun x => hjc ⟨hac, x.symm⟩
+      have h1 : ¬ e.weight = j := fun x => hjw x.symm
+      rw [getD_set_lt _ _ _ _ (by simp; omega), getD_set_lt _ _ _ _ (by simp; omega), getD_set_lt _ _ _ _ (by simp; omega),
+        getD_set_lt _ _ _ _ (by simp; omega), getD_set_lt _ _ _ _ (by simp; omega), getD_set_lt _ _ _ _ (by simp; omega),
+        getD_set_lt _ _ _ _ (by simp; omega), getD_set_lt _ _ _ _ (by omega)]
+      by_cases h3 : e.rule + 1 = j
+      · simp [h3]
+      · by_cases h2 : e.rule = j
+        · simp [h0, h1, h2, h3]
+        · rw [if_neg h3, if_neg h0, if_neg h1, if_neg h3, if_neg h2, if_neg h0, if_neg h1, if_neg h2]
+          exact hz' j hj hjw (fun x => h0 x.symm)
+
+/-- satisfiable (test on literals): weight column 0 holding junk, constant column 1 holding junk, rule columns 3/4 of 6 -/
+example : (execSBody ⟨3, 0, 1, true, 5, 1/2⟩ AITB.Gen.flpSetupCBody ⟨[9, 8, 0, 0, 0, 0], []⟩).pushed
+    = (flpCRows true 1 (1/2) 0 3 5).map (fun r => (denseRow 6 r, r.rhs)) := by decide +kernel
+
+/-- between two bases of `C` the source clears the weight column (`lp.row[currentWeight++] = 0.0;`): the invariant carries over to
+    the next weight column -/
+theorem clearExcept_next_basis (e : SEnv) (buf : List Rat) (hw : e.weight < buf.length) (hz : ClearExcept e buf) (k' : Nat) :
+    ClearExcept { e with weight := k' } (buf.set e.weight 0) := by
+  intro j hj _ hjc
+  rw [List.length_set] at hj
+  rw [getD_set_lt _ _ _ _ hw]
+  by_cases h : e.weight = j
+  · rw [if_pos h]
+  · rw [if_neg h]; exact hz j hj (fun x => h x.symm) hjc
+
+/-- after the loop over `C` the source clears the constant column (`if (addConstantBasis) lp.row[constBasisId] = 0.0;`) and the
+    last weight column: the buffer is clear, which is what the loop over `b` needs (`flpSetupB_body`) -/
+theorem clearExcept_after_C (e : SEnv) (buf : List Rat) (hw : e.weight < buf.length) (hc : e.addConst = true → e.constId < buf.length)
+    (hz : ClearExcept e buf) :
+    ∀ j, j < buf.length → ((if e.addConst then (buf.set e.weight 0).set e.constId 0 else buf.set e.weight 0)).getD j 0 = 0 := by
+  intro j hj
+  cases hac : e.addConst
+  · simp only [Bool.false_eq_true, if_false]
+    rw [getD_set_lt _ _ _ _ hw]
+    by_cases h : e.weight = j
+    · rw [if_pos h]
+    · rw [if_neg h]; exact hz j hj (fun x => h x.symm) (by simp [hac])
+  · simp only [if_true]
+    rw [getD_set_lt _ _ _ _ (by simp; exact hc hac), getD_set_lt _ _ _ _ hw]
+    by_cases h0 : e.constId = j
+    · rw [if_pos h0]
+    · by_cases h : e.weight = j
+      · rw [if_neg h0, if_pos h]
+      · rw [if_neg h0, if_neg h]; exact hz j hj (fun x => h x.symm) (fun x => h0 x.2.symm)
 
 end AITB.FLP
